@@ -30,8 +30,12 @@ class Ctx:
         if line not in self.known_printed:
             self.known_printed.append(line); print(line, flush=True)
 
+    MAXV = 3
     def violation(self, what, replay, found_input=True):
         n = len(self.violations)
+        if n >= self.MAXV:
+            self.suppressed = getattr(self, "suppressed", 0) + 1
+            return
         d = os.path.join(build.ROOT, "replays"); os.makedirs(d, exist_ok=True)
         path = os.path.join(d, "%s-%d-%d.json" % (self.pid, self.seed, n))
         replay = dict(replay); replay["property"] = self.pid; replay["what"] = what; replay["seed"] = self.seed
